@@ -61,6 +61,9 @@ var c10RSAKeys = []c10RSAKey{
 	{"pkcs1-unprotected", "rsa_unprotected.priv", "rsa_unprotected.pub", ""},
 	{"pkcs1-protected", "rsa.priv", "rsa.pub", "hunter2"},
 	{"pkcs8-unprotected", "rsa_pkcs8.priv", "rsa_pkcs8.pub", ""},
+	// a passphrase configured although the key needs none (NFPM_PASSPHRASE exported for another format's key, say)
+	{"pkcs1-unprotected+passphrase", "rsa_unprotected.priv", "rsa_unprotected.pub", "hunter2"},
+	{"pkcs8-unprotected+passphrase", "rsa_pkcs8.priv", "rsa_pkcs8.pub", "hunter2"},
 }
 
 type c10ApkName struct {
@@ -520,7 +523,7 @@ func (x *c10env) apkVerify(famName string, dec *Decoded, sig []byte, pub *rsa.Pu
 func (x *c10env) apkFamily() {
 	c := x.c
 	const famName = "apk"
-	fam := c.Rep.Family(famName, "apk: RSA key {PKCS#1 unprotected, PKCS#1 protected with passphrase, PKCS#8 unprotected} x key name {unset + maintainer Foo <foo@example.com>, unset + default maintainer, origin, x.rsa.pub} (all 12 pairs) over rotating payload specs; the package must have 3 gzip segments, the first holding exactly .SIGN.RSA.<name>.rsa.pub, whose body must verify (PKCS#1 v1.5, SHA-1) with the matching public key over the second segment's compressed bytes as shipped and fail over a one-bit perturbation; non-trivial = package built and decoded")
+	fam := c.Rep.Family(famName, "apk: RSA key {PKCS#1 unprotected, PKCS#1 protected with passphrase, PKCS#8 unprotected, both unprotected ones with a passphrase configured that they do not need} x key name {unset + maintainer Foo <foo@example.com>, unset + default maintainer, origin, x.rsa.pub} (all 12 pairs) over rotating payload specs; the package must have 3 gzip segments, the first holding exactly .SIGN.RSA.<name>.rsa.pub, whose body must verify (PKCS#1 v1.5, SHA-1) with the matching public key over the second segment's compressed bytes as shipped and fail over a one-bit perturbation; non-trivial = package built and decoded")
 	n := len(c10RSAKeys) * len(c10ApkNames)
 	x.sweep(n, c.N(3, 4), func(base *PkgSpec, k int) {
 		key, nm := c10RSAKeys[k%len(c10RSAKeys)], c10ApkNames[k/len(c10RSAKeys)]
@@ -879,6 +882,116 @@ func (x *c10env) failuresFamily() {
 	}
 }
 
+// keyFileChangesFamily: the key file is read at every packaging.  One path, whose content changes between builds of
+// one process: key A, a different key B, garbage, removed, key A again.  Every build must sign with the key the file
+// holds at that moment (issuer of the signature, verification with that key's public half) or fail as a signing
+// failure when the file holds no key.
+func (x *c10env) keyFileChangesFamily() {
+	c := x.c
+	const famName = "key-file-changes-between-builds"
+	fam := c.Rep.Family(famName, "exhaustive: one key file path whose content changes between packagings in one process - key A (testdata, unprotected), a freshly generated key B, 256 random bytes, file removed, key A again - x {deb debsign, rpm}: the signature's issuer and its verification must follow the key the file holds at that moment; with no key in the file packaging must fail with a signing failure; non-trivial = always")
+	fam.Exhaustive = true
+	keyA, err := os.ReadFile(x.key("privkey_unprotected.asc"))
+	if err != nil {
+		c.Rep.Note("%s: %v", famName, err)
+		return
+	}
+	entB, err := openpgp.NewEntity("verif key B", "", "b@example.com", nil)
+	if err != nil {
+		c.Rep.Note("%s: cannot generate key B: %v", famName, err)
+		return
+	}
+	var bufB bytes.Buffer
+	if aw, err := armor.Encode(&bufB, openpgp.PrivateKeyType, nil); err == nil {
+		_ = entB.SerializePrivate(aw, nil)
+		_ = aw.Close()
+	}
+	ringA := x.rings[0]
+	ringB := openpgp.EntityList{entB}
+	gb := make([]byte, 256)
+	for i := range gb {
+		gb[i] = byte(i*7 + 3)
+	}
+	type step struct {
+		name    string
+		content []byte // nil = remove the file
+		ring    openpgp.EntityList
+	}
+	steps := []step{{"key A", keyA, ringA}, {"key B", bufB.Bytes(), ringB}, {"garbage", gb, nil}, {"removed", nil, nil}, {"key A again", keyA, ringA}, {"key B again", bufB.Bytes(), ringB}}
+	for _, format := range []string{"deb", "rpm"} {
+		p := filepath.Join(c.Tmp, "rotating-key-"+format+".asc")
+		for _, st := range steps {
+			if st.content == nil {
+				_ = os.Remove(p)
+			} else if err := os.WriteFile(p, st.content, 0o600); err != nil {
+				c.Rep.Note("%s: %v", famName, err)
+				return
+			}
+			s := c10derive(x.specs[0], map[string]any{format + ".signature": map[string]any{"key_file": "<one path>", "file_holds": st.name}}, func(info *nfpm.Info) {
+				if format == "deb" {
+					info.Deb.Signature.KeyFile = p
+				} else {
+					info.RPM.Signature.KeyFile = p
+				}
+			})
+			in := s.Input()
+			in["format"], in["key_file_holds"] = format, st.name
+			data, berr := BuildPkg(format, s.Info())
+			fam.Eval(format+"|"+st.name, true)
+			fam.Count(format + ":" + st.name)
+			if st.ring == nil {
+				var sf *nfpm.ErrSigningFailure
+				switch {
+				case berr == nil:
+					c.Rep.Find(report.Finding{Property: "C10", Family: famName, Shape: format + ":signed-with-a-key-the-file-no-longer-holds",
+						What: fmt.Sprintf("the key file holds no key (%s), yet Package returned nil and %d bytes", st.name, len(data)), Input: in})
+				case !errors.As(berr, &sf):
+					c.Rep.Find(report.Finding{Property: "C10", Family: famName, Shape: format + ":not-a-signing-failure:" + st.name,
+						What: "errors.As(err, *nfpm.ErrSigningFailure) is false; error chain: " + c10chain(berr), Input: in})
+				}
+				continue
+			}
+			if berr != nil {
+				c.Rep.Find(report.Finding{Property: "C10", Family: famName, Shape: format + ":signed-build-error",
+					What: fmt.Sprintf("the key file holds %s, packaging fails: %v", st.name, berr), Input: in})
+				continue
+			}
+			dec, derr := DecodePkg(format, data)
+			if derr != nil {
+				c.Rep.Note("%s: decode: %v", famName, derr)
+				continue
+			}
+			var msg, sig []byte
+			armored := false
+			if format == "deb" {
+				var ok bool
+				if sig, ok = x.debSigMember(famName, "debsign", dec, "_gpgorigin", in); !ok {
+					continue
+				}
+				msg, armored = c10cat(dec.Deb.DebianBinary, dec.Deb.ControlRaw, dec.Deb.DataRaw), true
+			} else {
+				hs, _, ok := x.rpmSigs(famName, dec, in)
+				if !ok {
+					continue
+				}
+				msg, sig = dec.Rpm.HeaderRaw, hs
+			}
+			var verr error
+			if armored {
+				_, verr = openpgp.CheckArmoredDetachedSignature(st.ring, bytes.NewReader(msg), bytes.NewReader(sig), nil)
+			} else {
+				_, verr = openpgp.CheckDetachedSignature(st.ring, bytes.NewReader(msg), bytes.NewReader(sig), nil)
+			}
+			if verr != nil {
+				issuer, _ := c10issuer(sig, armored)
+				c.Rep.Find(report.Finding{Property: "C10", Family: famName, Shape: format + ":signature-not-made-with-the-key-the-file-holds",
+					What: fmt.Sprintf("the key file holds %s; the signature (issuer %x) does not verify with that key's public half: %v", st.name, issuer, verr), Input: in})
+			}
+		}
+		_ = os.Remove(p)
+	}
+}
+
 // c10chain renders the Unwrap chain of an error with the dynamic types.
 func c10chain(err error) string {
 	var parts []string
@@ -1046,6 +1159,7 @@ func runC10(c *Ctx) error {
 	x.apkFamily()
 	x.callbacksFamily(r.Fork("callbacks"))
 	x.failuresFamily()
+	x.keyFileChangesFamily()
 	// the same key-file families with SOURCE_DATE_EPOCH set to a date older than every key (reproducible builds of an
 	// old commit with a newer key): the package time follows it, the signature must still be made and verify
 	x.sde = "946684800"
